@@ -18,7 +18,7 @@ import (
 
 // c17bCase: one persistent-failure scenario.
 type c17bCase struct {
-	// Scenario: retry-class (S1) | conn-drop (S2) | dial-fail (S2b) | probe-fail (S3) |
+	// Scenario: retry-class (S1) | conn-drop (S2) | dial-fail (S2b) | probe-drop (S2c) | probe-fail (S3) |
 	// meta-down (S4) | zk-error (S4)
 	Scenario string `json:"scenario"`
 	Class    string `json:"class,omitempty"`
@@ -81,6 +81,9 @@ func c17bRunInBubble(c c17bCase) (out Outcome) {
 		}
 	case "dial-fail":
 		cl.Servers["rs2:16020"].Down = true
+	case "probe-drop":
+		// the server accepts the connection, takes the probe off the wire and hangs up
+		cl.Servers["rs2:16020"].DropOnRequest = true
 	case "probe-fail":
 		for _, r := range cl.Regions {
 			for k := 0; k < forever; k++ {
@@ -195,6 +198,13 @@ func c17bRunInBubble(c c17bCase) (out Outcome) {
 				times = append(times, d.T)
 			}
 		}
+	case "probe-drop":
+		what = "connections to the region's server (each accepted, the probe read, then dropped)"
+		for _, d := range dials {
+			if d.Addr == "rs2:16020" {
+				times = append(times, d.T)
+			}
+		}
 	case "probe-fail":
 		what = "region probes"
 		reg := cl.Owner("t", c.Key)
@@ -288,7 +298,7 @@ func TestC17_RetrySchedule(t *testing.T) {
 			"within 100 virtual ms of its cancellation. Non-trivial = >= 4 consecutive attempts observed; distinct by case hash")
 	Drive(t, rec, true, func(t *rapid.T) c17bCase {
 		c := c17bCase{
-			Scenario:        rapid.SampledFrom([]string{"retry-class", "retry-class", "conn-drop", "dial-fail", "probe-fail", "meta-down", "zk-error", "zk-hang", "meta-hang"}).Draw(t, "scenario"),
+			Scenario:        rapid.SampledFrom([]string{"retry-class", "retry-class", "conn-drop", "dial-fail", "probe-drop", "probe-fail", "meta-down", "zk-error", "zk-hang", "meta-hang"}).Draw(t, "scenario"),
 			LookupTimeoutMS: rapid.SampledFrom([]int{20, 200, 1000, 30000}).Draw(t, "lookuptimeout"),
 			Batch:           rapid.SampledFrom([]int{0, 0, 1, 2, 3}).Draw(t, "batch"),
 			Key:             evid.B(rapid.SampledFrom([]string{"a", "m", "z", ""}).Draw(t, "key")),
